@@ -2,7 +2,7 @@ import ActixModel.Util
 import ActixModel.Consts
 /-
 Model of the HTTP/2 response path of actix-http: `actix-http/src/h2/dispatcher.rs`
-  * `prepare_response`  (dispatcher.rs:282–367): status × BodySize × handler headers → emitted
+  * `prepare_response`  (dispatcher.rs:282–373): status × BodySize × handler headers → emitted
     header list and the adjusted BodySize;
   * `handle_response`   (dispatcher.rs:207–280): END_STREAM on the HEADERS frame for HEAD /
     bodiless responses, otherwise the send loop `reserve_capacity` / `poll_capacity` /
@@ -37,12 +37,12 @@ def BodySize.isEof : BodySize → Bool
 def chunkSize : Nat := Consts.h2ChunkSize
 
 /-- header names never copied onto an HTTP/2 response: `CONNECTION | TRANSFER_ENCODING | UPGRADE`
-(dispatcher.rs:330) and `keep-alive`, `proxy-connection` (dispatcher.rs:337) -/
+(dispatcher.rs:336) and `keep-alive`, `proxy-connection` (dispatcher.rs:343) -/
 def connSpecific : List String :=
   ["connection", "transfer-encoding", "upgrade", "keep-alive", "proxy-connection"]
 
-/-- the `match head.status` of dispatcher.rs:289–304: adjusted size and `skip_len`.
-`skip_len` starts as `size != Stream` (dispatcher.rs:282). -/
+/-- the `match head.status` of dispatcher.rs:295–310: adjusted size and `skip_len`.
+`skip_len` starts as `size != Stream` (dispatcher.rs:288). -/
 def adjustSize (status : Nat) (size : BodySize) : BodySize × Bool :=
   let skipLen := size != .stream
   if status = 204 ∨ status = 100 ∨ status = 102 then (.none, skipLen)
@@ -50,11 +50,11 @@ def adjustSize (status : Nat) (size : BodySize) : BodySize × Bool :=
   else if status = 101 then (.stream, true)
   else (size, skipLen)
 
-/-- is a handler header copied (the `match key` of dispatcher.rs:326–344)? -/
+/-- is a handler header copied (the `match key` of dispatcher.rs:332–352)? -/
 def keepHeader (skipLen : Bool) (name : String) : Bool :=
   !(connSpecific.contains name) && !(skipLen && name == "content-length")
 
-/-- the `match size` of dispatcher.rs:306–323 -/
+/-- the `match size` of dispatcher.rs:312–329 -/
 def lengthHeader : BodySize → List Header
   | .sized n => [("content-length", toString n)]
   | _ => []
@@ -79,7 +79,7 @@ inductive CapAns where
   | err             -- `Some(Err(_))`
   deriving DecidableEq, Repr
 
-/-- one item of the response body stream (dispatcher.rs:241) -/
+/-- one item of the response body stream (dispatcher.rs:235) -/
 inductive Item where
   | chunk (bs : Bytes)
   | err
@@ -103,8 +103,8 @@ inductive End where
   | done      -- END_STREAM sent (on the HEADERS frame, or by the final empty DATA frame)
   | closed    -- `poll_capacity` → `None`: body dropped, `Ok(())` (dispatcher.rs:252)
   | sendErr   -- `poll_capacity` → `Some(Err)` (dispatcher.rs:254)
-  | bodyErr   -- the body stream failed (dispatcher.rs:242)
-  | headErr   -- `send_response` failed (dispatcher.rs:232)
+  | bodyErr   -- the body stream failed (dispatcher.rs:236)
+  | headErr   -- `send_response` failed (dispatcher.rs:226)
   | stalled   -- `poll_capacity` is never answered again
   deriving DecidableEq, Repr
 
@@ -118,7 +118,7 @@ structure ChunkRun where
   rest : List CapAns
   deriving Repr
 
-/-- the `'send: loop` of dispatcher.rs:250–277 for one chunk: reserve `min(len, CHUNK_SIZE)`,
+/-- the `'send: loop` of dispatcher.rs:244–271 for one chunk: reserve `min(len, CHUNK_SIZE)`,
 wait for capacity, send `min(len, cap)` bytes, repeat while the chunk is not empty. -/
 def sendChunk (chunk : Bytes) : List CapAns → ChunkRun
   | [] => ⟨[], [], some .stalled, []⟩
@@ -140,8 +140,8 @@ structure BodyRun where
   end_ : End
   deriving Repr
 
-/-- the `while let Some(res) = body.poll_next()` loop of dispatcher.rs:241–280.
-Empty chunks are skipped (dispatcher.rs:244–248, the F11 repair). -/
+/-- the `while let Some(res) = body.poll_next()` loop of dispatcher.rs:235–277.
+Empty chunks are skipped (dispatcher.rs:238–242, the F11 repair). -/
 def sendBody : List Item → List CapAns → BodyRun
   | [], _ => ⟨[⟨[], true⟩], [], .done⟩
   | .err :: _, _ => ⟨[], [], .bodyErr⟩
